@@ -327,6 +327,7 @@ unsigned char** newByteData, size_t *outSize)
 	size_t k = 0, i;
 	tdps->isLossless = 1;
 	size_t totalByteLength = 3 + MetaDataByteLength + exe_params->SZ_SIZE_TYPE + 1 + intSize*dataLength;
+	free(*newByteData); //the stream just produced, which turned out larger than the raw data
 	*newByteData = (unsigned char*)malloc(totalByteLength);
 
 	unsigned char dsLengthBytes[8];
